@@ -120,6 +120,47 @@ def bounds_refusal(rep):
     rep.check(ok, "bounds-refusal", key + "::refuses-outside", why, node=node)
 
 
+def element_order(rep):
+    """interpolate flattens the target arrays, evaluates, and reshapes the values to the target
+    shape: value k of the result belongs to target k only if every flattening and the final
+    reshape enumerate the elements in the same (C) order.  A flatten/ravel/reshape with an
+    `order` other than 'C' ('K', 'A', 'F') enumerates a transposed or sliced target in memory
+    order and the values come back at other points."""
+    S = rep.sources
+    fn = S.function(NUM, "interpolate")
+    key = f"{NUM}::interpolate::element-order"
+    n = 0
+    for c in ast.walk(fn):
+        if not isinstance(c, ast.Call):
+            continue
+        f = unparse(c.func)
+        name = f.rsplit(".", 1)[-1]
+        if name not in ("flatten", "ravel", "reshape"):
+            continue
+        n += 1
+        order = [k.value for k in c.keywords if k.arg == "order"]
+        pos = None
+        if name in ("flatten", "ravel"):
+            rest = c.args[1:] if f in ("np.ravel", "numpy.ravel") else c.args
+            pos = rest[0] if rest else None
+        elif f in ("np.reshape", "numpy.reshape") and len(c.args) >= 3:
+            pos = c.args[2]
+        if pos is not None:
+            order.append(pos)
+        for o in order:
+            if not isinstance(o, ast.Constant):
+                raise AnalysisError(f"interpolate: the element order of `{unparse(c)[:60]}` is "
+                                    "not a literal")
+        bad = [o.value for o in order if o.value != "C"]
+        rep.check(not bad, "element-order", f"{key}::{name}#{n}",
+                  f"`{unparse(c)[:70]}` enumerates the elements in order {bad}: flattening and "
+                  "the final reshape no longer pair value k with target point k for a "
+                  "non-contiguous target array", node=c)
+    if n < 2:
+        raise AnalysisError("interpolate: the flattening of the targets and the reshape of the "
+                            "values were not both found")
+
+
 def loops_lm(fn):
     """[(el var, m var, outer range text, inner range text, inner body)]"""
     out = []
@@ -878,6 +919,7 @@ def run(rep):
     rep.assume("scipy.interpolate.RegularGridInterpolator, scipy.special.factorial/binom are "
                "trusted")
     bounds_refusal(rep)
+    element_order(rep)
     module_state(rep)
     analysis_synthesis(rep)
     angle_roles(rep)
